@@ -2058,3 +2058,11 @@ _jobs_before_unionclear = jobs
 
 def jobs(tier):
     return _jobs_before_unionclear(tier) + [(h_union_clear, a, 900) for a in ((2, True), (2, False), (3, True), (0, False))]
+
+
+_jobs_before_indexedbuilder = jobs
+
+
+def jobs(tier):
+    from . import mnode
+    return _jobs_before_indexedbuilder(tier) + mnode.jobs_indexed_builder(tier)
